@@ -17,6 +17,8 @@ from __future__ import annotations
 
 import itertools
 import json
+import os
+import tempfile
 import threading
 import time
 from concurrent.futures import Future, ThreadPoolExecutor
@@ -245,14 +247,29 @@ def run_impl(case):
     LOG.clear()
     JITTER[0] = case.get("jitter", 0) if case.get("exec") == "pool" else 0
     ex = _make_executor(case)
+    cwd = os.getcwd()
+    os.chdir(_scratch())       # a failing root node drops <label>/recovery.pckl into the working directory
     try:
         if case["kind"] == "shortcut":
             return _run_shortcut(case, ex)
         return _run_node(case, ex)
     finally:
+        os.chdir(cwd)
         JITTER[0] = 0
         if ex is not None:
             ex.shutdown(wait=True)
+
+
+_SCRATCH = []
+
+
+def _scratch():
+    if not _SCRATCH:
+        _SCRATCH.append(tempfile.mkdtemp(prefix="verif_c16_"))
+        import atexit
+        import shutil
+        atexit.register(shutil.rmtree, _SCRATCH[0], ignore_errors=True)
+    return _SCRATCH[0]
 
 
 def _run_maps(case):
@@ -281,6 +298,7 @@ def _run_node(case, ex):
     except Exception as e:   # noqa: BLE001
         return [_exc_obs(e)]
     obs = [["created"]]
+    node.recovery = None          # no recovery file for the failing runs of the scenarios
     if ex is not None:
         node.body_node_executor = ex
     for st in case["steps"]:
@@ -557,7 +575,7 @@ def _oracle_steps(case, obs, shortcut=False):
                     d.update({zz: z for zz in case["zip"]})
                     idxs.append(d)
             exp_ch = _expected_children(case, idxs)
-            if o[2] != exp_ch:
+            if sorted(map(json.dumps, o[2])) != sorted(map(json.dumps, exp_ch)):   # as a set: order is the model's business
                 nb = sum(1 for c in o[2] if c[0] == "body")
                 return (f"children: run {k}: {len(o[2])} children ({nb} body nodes), expected {len(exp_ch)} "
                         f"({len(rows)} body nodes): {o[2]}")
@@ -743,12 +761,28 @@ def _gen_exec(rng, case, p_exec):
         case["exec"] = None
 
 
+def _max_rows(case):
+    """largest number of body nodes any run of the case can build (bounds the cost of a case)"""
+    cur, worst = {}, 0
+    for st in case["steps"]:
+        cur.update({l: v for l, v in st["set"] if isinstance(v, list)})
+        p = 1
+        for k in case["iter"]:
+            p *= max(1, len(cur.get(k, [])))
+        z = max([len(cur.get(k, [])) for k in case["zip"]] or [1])
+        worst = max(worst, p * max(1, z))
+    return worst
+
+
 def _gen_node(rng, p_exec):
     b = rng.choice([0, 1, 1, 2, 2, 3, 3, 4, 5])
     it, zp, colmap = _gen_layout(rng, b)
     case = {"kind": "node", "body": b, "iter": it, "zip": zp, "df": rng.random() < 0.5, "colmap": colmap,
             "cache": rng.random() < 0.8, "entry": rng.choice(["for_node", "for_node", "cls"])}
-    case["steps"] = _gen_steps(rng, b, it, zp, rng.choice([1, 2, 2, 3, 3, 4]))
+    while True:
+        case["steps"] = _gen_steps(rng, b, it, zp, rng.choice([1, 2, 2, 3, 3, 4]))
+        if _max_rows(case) <= 36:
+            break
     _gen_exec(rng, case, p_exec)
     return case
 
@@ -781,13 +815,26 @@ def generate(ctx):
         if k not in seen:
             seen.add(k)
             cases.append(c)
-    for _ in range(ctx.n(450, 6000)):
+    for _ in range(ctx.n(450, 5000)):
         add(_gen_maps(rng))
-    for _ in range(ctx.n(300, 5000)):
+    for _ in range(ctx.n(300, 3500)):
         add(_gen_node(rng, 0.2 if ctx.quick else 0.4))
-    for _ in range(ctx.n(40, 600)):
+    for _ in range(ctx.n(40, 500)):
         add(_gen_shortcut(rng, 0.2 if ctx.quick else 0.4))
     return cases
+
+
+def search(ctx, results, mism):
+    """model and implementation disagree but the oracle holds on the quick sample: look harder on the
+    implementation side, around the layouts of the disagreeing cases (3x the quick budget)"""
+    import random
+    rng = random.Random(f"C16-search-{ctx.seed}")
+    kinds = {results[i][0]["kind"] for i in mism} or {"maps", "node", "shortcut"}
+    out = []
+    for _ in range(900):
+        k = rng.choice(sorted(kinds))
+        out.append(_gen_maps(rng) if k == "maps" else _gen_node(rng, 0.3) if k == "node" else _gen_shortcut(rng, 0.3))
+    return out
 
 
 def shrink_candidates(case):
